@@ -83,7 +83,8 @@ def run(rep, tier, seed, replay=None):
             for what, c in variants:
                 for port in ("-", str(rnd.choice([27015, 1, 65535, d["port"]]))):
                     k += 1
-                    script_opts = " ".join([c.fmt_script()] + c.opts)
+                    # (every other group over IPv6: the paths must agree on the destination whatever the address family)
+                    script_opts = " ".join([c.fmt_script()] + c.opts + (["ip=6"] if (k // 2) % 2 else []))
                     gid = f"{d['id']}_{k}"
                     g = f"{gid}g game-generic {d['id']} {port} 0 {script_opts}"
                     p = f"{gid}p game-protocol {d['port'] if port == '-' else port} {d['engine']} {d['gather']} 0 {script_opts}"
@@ -150,7 +151,8 @@ def run(rep, tier, seed, replay=None):
             for what, c in variants:
                 for port in ("-", str(rnd.choice([27015, 1, 65535, d["port"]]))):
                     k += 1
-                    script_opts = " ".join([c.fmt_script()] + c.opts)
+                    # (every other group over IPv6: the paths must agree on the destination whatever the address family)
+                    script_opts = " ".join([c.fmt_script()] + c.opts + (["ip=6"] if (k // 2) % 2 else []))
                     gid = f"{d['id']}_{k}"
                     grp = {"id": d["id"], "what": what,
                            "generic": f"{gid}g any-generic {d['id']} {port} {script_opts}",
